@@ -418,7 +418,12 @@ func (c *Ctx) c02JWKS(p *Prog) {
 		atom string
 	}{{"GET error is nil", errNilAtom(get, 1)}, {"body decoded", "(" + desc(dec) + " == nil)"}, {"NewJWKSetJSON error is nil", errNilAtom(nj, 1)}} {
 		a := T(st.atom)
-		c.mustPassPred(p, fn, "C02.jwks.refresh", name+": success ⇒ cached key set still fresh ∨ "+st.what, successRet(1),
+		// decided per feasible path (prop_gen_c44.go): when the download sits in
+		// a new helper returning (keyset, error), pullJWTJWKS's own `err != nil`
+		// is a test of the error that helper returned on the path taken - the
+		// GET error, the decode error or NewJWKSetJSON's - also when the helper
+		// has defers (results spilled through slots)
+		c.mustPassPredG4(p, fn, "C02.jwks.refresh", name+": success ⇒ cached key set still fresh ∨ "+st.what, successRet(1),
 			func(l Lit) bool { return cached(l) || a.match(l) })
 	}
 	// the returned key function is the Keyfunc method of Manager.jwtKeyFunc
@@ -439,6 +444,18 @@ func (c *Ctx) c02JWKS(p *Prog) {
 		for _, st := range fieldStores(f, "auth.Manager", "jwtKeyFunc") {
 			n++
 			ok := f == fn && desc(st.Val) == desc(nj)+"#0"
+			if f == fn && !ok {
+				// the stored value on every feasible path that executes the store:
+				// result #0 of that NewJWKSetJSON call (handed back by a new helper,
+				// possibly through the result slots of a function with defers)
+				if vals, decided := valuesAtG4(fn, st, st.Val); decided && len(vals) > 0 {
+					ok = true
+					for _, v := range vals {
+						ex, isEx := v.v.(*ssa.Extract)
+						ok = ok && isEx && ex.Index == 0 && ex.Tuple == ssa.Value(nj)
+					}
+				}
+			}
 			c.Check("C02.jwks.keyfunc", "store to Manager.jwtKeyFunc in "+fnName(f)+" is the freshly downloaded key set", ok, p.Pos(st.Pos()), desc(st.Val))
 		}
 	}
@@ -471,7 +488,7 @@ func (c *Ctx) c02JWKS(p *Prog) {
 				{"body decoded", "(" + desc(dec) + " == nil)"},
 				{"NewJWKSetJSON error is nil", errNilAtom(nj, 1)},
 			} {
-				c.mustPassPred(p, fn, "C02.jwks.fresh", site+" ⇒ "+s.what, tgt, litAny(T(s.atom)))
+				c.mustPassPredG4(p, fn, "C02.jwks.fresh", site+" ⇒ "+s.what, tgt, litAny(T(s.atom)))
 			}
 		}
 	}
